@@ -37,6 +37,27 @@ class Obj:
         return "<%s %s>" % (self.cls, {k: v for k, v in self.fields.items()})
 
 
+class _ObjKey:
+    """A model object used as a cache / dict key: hashed and compared with the object's OWN __hash__ / __eq__."""
+    __slots__ = ("interp", "o")
+
+    def __init__(self, interp, o):
+        self.interp, self.o = interp, o
+
+    def __hash__(self):
+        h = self.interp.dunder(self.o, "__hash__")
+        if isinstance(h, tuple) and len(h) == 2 and h[0] == "hash-of":
+            return hash(h[1])            # the evaluator's hash(x) stands for "the hash of x"
+        return id(self.o) if h is _Missing else h if isinstance(h, int) and not isinstance(h, bool) else hash(h)
+
+    def __eq__(self, other):
+        if isinstance(other, _ObjKey):
+            return self.o is other.o or bool(self.interp.v_compare(ast.Eq(), self.o, other.o))
+        if isinstance(other, (str, bytes, int, float, tuple, frozenset)) or other is None:
+            return bool(self.interp.v_compare(ast.Eq(), self.o, other))      # the reflected comparison CPython falls back to
+        return NotImplemented
+
+
 class BoundMethod:
     def __init__(self, obj, func, name):
         self.obj, self.func, self.name = obj, func, name
@@ -158,7 +179,21 @@ class OFolder(Folder):
         finally:
             self._level -= 1
             self.stack.pop()
+        if closure_env is None:
+            self._write_globals(node, func.module.name, outs)
         return self._single(outs, getattr(func, "qualname", getattr(node, "name", "?")))
+
+    def _write_globals(self, node, modname, outs):
+        """`global x` in a function: what the function leaves in x is what the module holds afterwards (single-outcome runs only)."""
+        names = [n for st in ast.walk(node) if isinstance(st, ast.Global) for n in st.names]
+        if not names or len(outs) != 1:
+            return
+        env = outs[0].env
+        target = self.overrides.get(modname) if modname in self.overrides and any(n in self.overrides[modname] for n in names) else None
+        mod = self.module(modname)
+        for n in names:
+            if n in env and env[n] is not TOP:
+                (target if target is not None and n in target else mod)[n] = env[n]
 
     def _single(self, outs, what):
         if len(outs) != 1 or outs[0].assumptions or outs[0].opaque:
@@ -305,10 +340,19 @@ class OFolder(Folder):
                             raise Unknown("__new__ of a class with a builtin base")
                     return Obj(v.mod, v.name)
                 return NativeFunc(bare, "%s.__new__" % v.name)
-            # class attribute assigned in the class body
-            for st in v.node.body:
-                if isinstance(st, ast.Assign) and any(isinstance(t, ast.Name) and t.id == attr for t in st.targets):
-                    return self.expr(st.value, dict(self.module(v.mod)))
+            # class attribute assigned in the class body (or re-bound through the class since): one value per class
+            cache = self.__dict__.setdefault("_class_attrs", {})
+            for m, c in self.src.mro(v.mod, v.name):
+                key = (m, c.name, attr)
+                if key in cache:
+                    return cache[key]
+                for st in c.body:
+                    tgt = st.targets if isinstance(st, ast.Assign) else [st.target] if isinstance(st, ast.AnnAssign) and st.value is not None else []
+                    if any(isinstance(t, ast.Name) and t.id == attr for t in tgt):
+                        env2 = dict(self.module(m))
+                        env2.update(self.overrides.get(m, {}))
+                        cache[key] = self.expr(st.value, env2)
+                        return cache[key]
             raise Unknown("class attribute %s.%s" % (v.name, attr))
         return Folder.v_attr(self, v, attr)
 
@@ -341,6 +385,13 @@ class OFolder(Folder):
         if isinstance(op, (ast.Is, ast.IsNot)):
             same = l is r
             return same if isinstance(op, ast.Is) else not same
+        if isinstance(op, (ast.In, ast.NotIn)) and isinstance(r, dict) and isinstance(l, Obj):
+            res = _ObjKey(self, l) in r
+            return res if isinstance(op, ast.In) else not res
+        if isinstance(op, (ast.In, ast.NotIn)) and isinstance(r, (list, tuple)) and (isinstance(l, Obj) or any(isinstance(x, Obj) for x in r)):
+            # membership in a sequence of model objects compares with the objects' own __eq__ (identity first, as CPython does)
+            res = any(x is l or self.v_compare(ast.Eq(), x, l) for x in r)
+            return res if isinstance(op, ast.In) else not res
         if isinstance(op, (ast.In, ast.NotIn)) and isinstance(r, Obj):
             if r.payload is not None:
                 res = l in r.payload
@@ -386,6 +437,8 @@ class OFolder(Folder):
                 except KeyError:
                     raise FoldedRaise("KeyError", repr(idx))
             raise FoldedRaise("TypeError", "not subscriptable")
+        if isinstance(v, dict) and isinstance(idx, Obj):
+            idx = _ObjKey(self, idx)
         try:
             return Folder.v_subscript(self, v, idx)
         except KeyError:
@@ -414,7 +467,26 @@ class OFolder(Folder):
             if isinstance(base, Obj):
                 if v is TOP:
                     raise Unknown("store of unknown value into %s.%s" % (base.cls, t.attr))
+                pf = self._find_method(base, t.attr)
+                if pf is not None and "property" in self._decos(pf):
+                    # a property without a setter refuses the assignment (that is what makes `run.atts = ...` fail)
+                    has_setter = any(isinstance(st, ast.FunctionDef) and any(ast.unparse(d) == "%s.setter" % t.attr for d in st.decorator_list)
+                                     for _, c in self.src.mro(base.mod, base.cls) for st in c.body)
+                    if not has_setter:
+                        raise FoldedRaise("AttributeError", "property '%s' of '%s' object has no setter" % (t.attr, base.cls))
+                    for m2, c2 in self.src.mro(base.mod, base.cls):
+                        sf = getattr(self.src, "accessors", {}).get((m2, c2.name + "." + t.attr, "setter"))
+                        if sf is not None:
+                            self._inline(sf, [v], {}, self_obj=base)
+                            return
+                    raise Unknown("property setter %s.%s" % (base.cls, t.attr))
                 base.fields[t.attr] = v
+                return
+            if isinstance(base, ClassRef):
+                # a class attribute (counter, registry) re-bound through the class: ONE value per class, as for reads
+                if v is TOP:
+                    raise Unknown("store of unknown value into %s.%s" % (base.name, t.attr))
+                self.__dict__.setdefault("_class_attrs", {})[(base.mod, base.name, t.attr)] = v
                 return
             if isinstance(base, (LocalFunc, FuncRef)) and t.attr in ("__name__", "__qualname__", "__doc__", "__module__", "__wrapped__", "__annotations__"):
                 # metadata of a function object (functools.wraps-style bookkeeping): kept, never consulted by a call
@@ -428,6 +500,12 @@ class OFolder(Folder):
                 if res is _Missing:
                     raise FoldedRaise("TypeError", "item assignment")
                 return
+            if isinstance(base, dict):
+                k = self._index(t, env)
+                if isinstance(k, Obj) and v is not TOP:
+                    # a model object as a dict key: hashed / compared with its own __hash__ / __eq__
+                    base[_ObjKey(self, k)] = v
+                    return
         return Folder.assign(self, t, v, env)
 
     def v_iop(self, op, cur, rhs):
@@ -523,8 +601,10 @@ class OFolder(Folder):
             if "lru_cache" in decos or "cache" in decos:
                 # functools.lru_cache: one result per argument tuple for the life of the process; keys are compared with == / hash
                 # (so 0, 0.0 and False are ONE key)
+                _K = lambda o: _ObjKey(self, o)   # noqa: E731
                 try:
-                    key = (tuple(args), tuple(sorted(kw.items())))
+                    key = (tuple(_K(a) if isinstance(a, Obj) else a for a in args),
+                           tuple(sorted((k, _K(x) if isinstance(x, Obj) else x) for k, x in kw.items())))
                     hash(key)
                 except TypeError:
                     raise FoldedRaise("TypeError", "unhashable argument of a cached function")
@@ -539,6 +619,11 @@ class OFolder(Folder):
             if func is None:
                 raise Unknown("function %s not found" % f.name)
             return self._inline(func, args, kw)
+        if isinstance(f, Partial) and getattr(f, "target", None) is not None and \
+                isinstance(f.target, (FuncRef, ClassRef, BoundMethod, LocalFunc, ClassFunc, NativeFunc)):
+            k2 = dict(f.kw)
+            k2.update(kw)
+            return self.v_call(f.target, list(f.args) + list(args), k2, node, env)
         if isinstance(f, Partial):
             target = self.module("fmtfuncs").get(f.func) if f.func in self.module("fmtfuncs") else None
             if target is None:
@@ -654,6 +739,21 @@ class OFolder(Folder):
                 any(isinstance(a, Obj) and a.payload is not None for a in list(args) + list(kw.values())):
             args = [a.payload if isinstance(a, Obj) and a.payload is not None else a for a in args]
             kw = {k: (a.payload if isinstance(a, Obj) and a.payload is not None else a) for k, a in kw.items()}
+        if getattr(f, "__name__", "") in ("index", "count", "remove") and isinstance(getattr(f, "__self__", None), (list, tuple)) and args and \
+                (isinstance(args[0], Obj) or any(isinstance(x, Obj) for x in f.__self__)):
+            # list.index / count / remove on model objects: equality is the objects' own __eq__ (identity first, as CPython does)
+            seq = f.__self__
+            lo = args[1] if len(args) > 1 else 0
+            hi = args[2] if len(args) > 2 else len(seq)
+            hits = [i for i in range(*slice(lo, hi).indices(len(seq))) if seq[i] is args[0] or self.v_compare(ast.Eq(), seq[i], args[0])]
+            if f.__name__ == "count":
+                return len([i for i in range(len(seq)) if seq[i] is args[0] or self.v_compare(ast.Eq(), seq[i], args[0])])
+            if not hits:
+                raise FoldedRaise("ValueError", "x not in list")
+            if f.__name__ == "index":
+                return hits[0]
+            del seq[hits[0]]
+            return None
         if f in (list, tuple, sorted, set, frozenset, enumerate, zip, reversed, max, min, "".join.__class__) or \
                 getattr(f, "__name__", "") in ("join", "append", "extend", "get", "items", "keys", "values", "update", "format", "chain"):
             # containers of objects are fine for structural builtins
@@ -758,6 +858,7 @@ class ObjInterp(BlockEval):
         self.folder.stack.append(f.qualname)
         try:
             outs = self.run_function(f.node, outs_env)
+            self.folder._write_globals(f.node, module, outs)
         finally:
             self.folder.stack.pop()
         return outs
